@@ -27,24 +27,29 @@ theorem drop_take_mid (pre mid post : Bytes) : ((pre ++ mid ++ post).drop pre.le
 
 theorem Dec.skip_at {d : Dec} {pre payload post : Bytes} {tag wt : Nat}
     (h1 : 1 ≤ tag) (ht : tag ≤ maxTagValue) (hp : WFPayload wt payload)
-    (h : d.At (pre ++ encTag tag wt) (payload ++ post)) :
+    (h : d.At (pre ++ encTag tag wt) (payload ++ post))
+    (hkey : d.ke = d.off ∧ d.ke > d.ks → d.ks = pre.length) :
     d.skip tag wt = ({ d with off := d.off + payload.length }, .ok (.bytes (encTag tag wt ++ payload))) := by
   have hw := hp.wt_lt
   have hne : payload ++ post ≠ [] := by simp [hp.ne_nil]
   have hsz : sizeOfTagKey tag = (encTag tag wt).length := sizeOfTagKey_eq_length ht hw
   have hoff : d.off = pre.length + (encTag tag wt).length := by rw [h.off]; simp
-  have hbof : d.off - sizeOfTagKey tag = pre.length := by rw [hsz, hoff]; omega
+  have hbof0 : d.off - sizeOfTagKey tag = pre.length := by rw [hsz, hoff]; omega
+  have hbof : (if d.ke = d.off ∧ d.ke > d.ks then d.ks else d.off - sizeOfTagKey tag) = pre.length := by
+    by_cases hc : d.ke = d.off ∧ d.ke > d.ks
+    · rw [if_pos hc]; exact hkey hc
+    · rw [if_neg hc]; exact hbof0
   have hk64 : keyOf tag wt < two64 := by
     have := keyOf_lt ht hw; unfold two32 at this; unfold two64; omega
   have hks := keyOf_shift ht hw
   have hpp : d.p = pre ++ (encTag tag wt ++ (payload ++ post)) := by rw [h.p]; simp
   have hslice : sliceFrom d.p pre.length = .ok (encTag tag wt ++ (payload ++ post)) := by
     unfold sliceFrom; rw [hpp]; simp
-  have hcheck : d.skipCheck tag wt (d.off - sizeOfTagKey tag) (sizeOfTagKey tag) = .ok () := by
+  have hcheck : d.skipCheck tag wt pre.length (sizeOfTagKey tag) = .ok () := by
     unfold Dec.skipCheck
     by_cases hf : d.fast
     · simp [hf]
-    · simp only [hf, if_false, hbof, hslice]
+    · simp only [hf, if_false, hslice]
       unfold encTag
       rw [decodeVarint_encVarint _ hk64]
       simp [hsz, encTag, hks.1, hks.2]
@@ -65,10 +70,10 @@ theorem Dec.skip_at {d : Dec} {pre payload post : Bytes} {tag wt : Nat}
       rw [List.append_assoc, decodeVarint_encVarint _ hl64]
       simp [hn0, hm]
   unfold Dec.skip
-  simp only [h.not_eof hne, if_false]
+  simp only [h.not_eof hne, if_false, hbof]
   simp only [hcheck, hskipped]
   have hfit : ¬ (d.off + payload.length > d.len) := by rw [h.len, h.off]; simp
-  simp only [hfit, if_false, hbof]
+  simp only [hfit, if_false]
   have hlen : d.off + payload.length - pre.length = (encTag tag wt ++ payload).length := by
     rw [hoff]; simp; omega
   have hp3 : d.p = pre ++ (encTag tag wt ++ payload) ++ post := by rw [h.p]; simp
